@@ -132,3 +132,24 @@ c15_ops([op(P,T,Cs)|Os]) :- atom_codes(N, Cs), op(P, T, N), c15_ops(Os).
 % c15_optable(L): the full table as o(P,T,NameCodes)
 c15_optable(L) :-
     findall(o(P,T,Cs), (current_op(P,T,N), atom_codes(N,Cs)), L).
+
+% C55 -------------------------------------------------------------------------
+% c55a(Codes): the atom alone, as f(A) and as [A], each through
+% writeq/1, write/1, write_canonical/1, write_term/2 [quoted(true)]; texts
+% separated by \x2\.
+c55a(Cs) :-
+    atom_codes(A, Cs),
+    F =.. [f, A],
+    c15_cells([A], [], L),
+    c55w(A), c55w(F), c55w(L).
+
+c55w(T) :-
+    put_char('\x2\'), writeq(T),
+    put_char('\x2\'), write(T),
+    put_char('\x2\'), write_canonical(T),
+    put_char('\x2\'), write_term(T, [quoted(true)]).
+
+% c55b(AtomCodes, TextCodes, R): the text reads back to exactly that atom
+c55b(ACs, TCs, R) :-
+    atom_codes(A, ACs),
+    c15_readback(TCs, A, R).
